@@ -1,12 +1,14 @@
 #!/bin/bash
-# usage: seedtest.sh <seed-id> <property> : applies the seeded change to /repo, runs the check, reverts.
-sid=$1; prop=$2
-cd /repo || exit 2
-if git apply --check /verif/seeded/$sid/patch.diff 2>/dev/null; then git apply /verif/seeded/$sid/patch.diff
-else echo "patch needs 3-way merge: $sid"; git apply --3way /verif/seeded/$sid/patch.diff || { git reset -q --hard HEAD; echo "PATCH DOES NOT APPLY: $sid"; exit 3; }; fi
+# usage: seedtest.sh <seed-id> <property> [--tier t]
+# Applies the seeded change to a scratch worktree of /repo (never to /repo itself), runs the
+# check of <property> against it (VERIF_REPO) and removes the worktree.
+sid=$1; prop=$2; shift 2
+wt=/var/tmp/verif-seed-$sid-$$
+git -C /repo worktree add -q --detach $wt HEAD || exit 3
+trap 'git -C /repo worktree remove --force $wt >/dev/null 2>&1; git -C /repo worktree prune' EXIT
+if ! git -C $wt apply /verif/seeded/$sid/patch.diff; then echo "PATCH DOES NOT APPLY: $sid"; exit 3; fi
 cd /verif
-./check $prop > /tmp/seedtest.$sid.out 2>&1; rc=$?
-git -C /repo reset -q --hard HEAD
-git -C /repo status --short | grep -v '^??' 
+VERIF_REPO=$wt ./check $prop "$@" > /tmp/seedtest.$sid.out 2>&1; rc=$?
 echo "seed=$sid prop=$prop exit=$rc"
-grep "^VIOLATION\|^  harness=\|^INCONCLUSIVE\|^property\|^KNOWN" /tmp/seedtest.$sid.out | cut -c1-300 | head -20
+grep "^VIOLATION\|^  harness=\|^INCONCLUSIVE\|^property" /tmp/seedtest.$sid.out | cut -c1-300 | head -12
+exit $rc
